@@ -290,3 +290,24 @@ def merge_results(a, b):
     for k, v in b['outcomes'].items():
         out['outcomes'][k] = out['outcomes'].get(k, 0) + v
     return out
+
+
+def patient_world(ctx, name, port_base, **kw):
+    """lockstep.World whose start() is retried (twice) when the instance does not come up within lockstep's 60 s
+    start-up limit -- that only happens when the shared machine is heavily overloaded."""
+    from . import lockstep
+
+    class PatientWorld(lockstep.World):
+        def start(self):
+            last = None
+            for attempt in range(3):
+                try:
+                    self.sq.start()
+                    return self
+                except HarnessError as e:
+                    last = e
+                    if 'not ready after' not in str(e) and 'watchdog' not in str(e):
+                        raise
+                    self.sq.kill()
+            raise last
+    return PatientWorld(ctx, name, port_base, **kw)
